@@ -225,7 +225,7 @@ fn tree_str(t: &Tree, leaf_ms: &[String]) -> String {
     }
 }
 
-const OPS: u8 = 10;
+const OPS: u8 = 13;
 
 fn gen_scenario(seed: u64, iter: u64) -> Scenario {
     let mut r = Rng(mix(seed, iter));
@@ -348,7 +348,7 @@ fn check_spend_info(tr: &Tr<XOnlyPublicKey>, r: &Reference, scripts_by_pos: Opti
     }
 }
 
-fn run_ops(tr: &Arc<Tr<XOnlyPublicKey>>, ops: &[u8], ex: &Expect, fresh: &Tr<XOnlyPublicKey>) {
+fn run_ops(tr: &Arc<Tr<XOnlyPublicKey>>, ops: &[u8], ex: &Expect, fresh: &Tr<XOnlyPublicKey>, twin: &Arc<Tr<XOnlyPublicKey>>, tid: usize) {
     let mut spk_expect = vec![0x51, 0x20];
     spk_expect.extend_from_slice(&ex.reference.output);
     for op in ops {
@@ -408,11 +408,40 @@ fn run_ops(tr: &Arc<Tr<XOnlyPublicKey>>, ops: &[u8], ex: &Expect, fresh: &Tr<XOn
                     _ => panic!("re-parsed into a different descriptor type"),
                 }
             }
-            _ => {
+            9 => {
                 // drop a clone while others use the original
                 let c = (**tr).clone();
                 let _ = c.spend_info();
                 drop(c);
+            }
+            10 => {
+                // compare with itself and with a clone taken after the cache was filled
+                let _ = tr.spend_info();
+                assert!(**tr == **tr, "a Tr is not equal to itself");
+                let c = (**tr).clone();
+                assert!(c == **tr && **tr == c, "clone of a cached Tr is not equal to it");
+                assert_eq!(c.cmp(&**tr), std::cmp::Ordering::Equal);
+                assert_eq!(hash_of(&c), hash_of(&**tr));
+            }
+            11 => {
+                // two cached objects compared in opposite orders by different threads
+                let _ = tr.spend_info();
+                let _ = twin.spend_info();
+                if tid % 2 == 0 {
+                    assert!(**tr == **twin, "cached twin differs");
+                } else {
+                    assert!(**twin == **tr, "cached twin differs");
+                }
+            }
+            _ => {
+                // ordering / hashing of two cached objects in opposite orders
+                let _ = twin.spend_info();
+                if tid % 2 == 0 {
+                    assert_eq!((**tr).cmp(&**twin), std::cmp::Ordering::Equal);
+                } else {
+                    assert_eq!((**twin).cmp(&**tr), std::cmp::Ordering::Equal);
+                }
+                assert_eq!(hash_of(&**tr), hash_of(&**twin));
             }
         }
     }
@@ -432,15 +461,22 @@ fn scenario_closure(sc: Scenario) -> Result<impl Fn() + Send + Sync + 'static, S
             _ => unreachable!(),
         });
         let tr = Arc::new(tr);
+        // a second object that shares the cached spend info (clone of a clone with a filled cache)
+        let twin = Arc::new({
+            let c = (*tr).clone();
+            let _ = c.spend_info();
+            c.clone()
+        });
         let mut hs = vec![];
         for t in 1..sc.n_threads {
             let tr = tr.clone();
             let ex = ex.clone();
             let sc2 = sc.clone();
             let fresh = fresh.clone();
-            hs.push(thread::spawn(move || run_ops(&tr, &sc2.ops[t], &ex, &fresh)));
+            let twin = twin.clone();
+            hs.push(thread::spawn(move || run_ops(&tr, &sc2.ops[t], &ex, &fresh, &twin, t)));
         }
-        run_ops(&tr, &sc.ops[0], &ex, &fresh);
+        run_ops(&tr, &sc.ops[0], &ex, &fresh, &twin, 0);
         for h in hs {
             h.join().expect("thread panicked");
         }
@@ -593,7 +629,7 @@ fn main() {
                     "runs_per_hour": if wall > 0.0 { (executions as f64 / wall * 3600.0) as u64 } else { 0 },
                     "tree_shapes": shapes,
                     "max_leaf_depth_reached": max_depth,
-                    "operations_executed_by_kind": {"spend_info": op_counts[0], "script_pubkey": op_counts[1], "address": op_counts[2], "leaves": op_counts[3], "clone": op_counts[4], "eq_cmp_hash": op_counts[5], "translate_identity": op_counts[6], "translate_rename": op_counts[7], "print_parse": op_counts[8], "clone_drop": op_counts[9]},
+                    "operations_executed_by_kind": {"spend_info": op_counts[0], "script_pubkey": op_counts[1], "address": op_counts[2], "leaves": op_counts[3], "clone": op_counts[4], "eq_cmp_hash": op_counts[5], "translate_identity": op_counts[6], "translate_rename": op_counts[7], "print_parse": op_counts[8], "clone_drop": op_counts[9], "eq_self_and_cached_clone": op_counts[10], "eq_twin_opposite_orders": op_counts[11], "cmp_hash_twin_opposite_orders": op_counts[12]},
                     "faults": "schedule interleavings only (the library has no I/O); deadlock and lock poisoning are reported by shuttle as failures",
                     "components": {"real_code": ["miniscript Tr / TapTree / TrSpendInfo with its cache Mutex replaced by shuttle::sync::Mutex (hook H1)"], "stubs": ["BIP341 reference (R4) computed outside the execution", "thread scheduler (shuttle)"]}
                 },
